@@ -438,6 +438,25 @@ int main(int argc, char **argv)
         if (mc_report_faults("op") || !tn) continue;
         if (MC_TRY(120000)) { battery(tn, &mn); mc_try_end(); }
         mc_report_faults("battery");
+        /* every entry point refreshes the structures lazily, and the battery starts with hwloc_distances_get(): each of the
+         * other entry points is also called FIRST, alone, on a freshly rebuilt state (a getter that forgets to refresh is
+         * hidden by whichever getter ran before it; same lesson as C14's first-query passes) */
+        if (mn.n) for (int fq = 1; fq <= 4; fq++) {
+          struct model m2; hwloc_topology_t t2 = NULL;
+          if (MC_TRY(30000)) { t2 = build(&hn, &m2, 0); mc_try_end(); }
+          if (mc_fault[0] || !t2) { mc_fault[0] = 0; mc_clear_san(); continue; }
+          if (MC_TRY(60000)) {
+            if (fq == 1) { int depth = hwloc_topology_get_depth(t2); for (int d = 0; d < depth; d++) query(t2, &m2, 1, d, NULL, 0); query(t2, &m2, 1, HWLOC_TYPE_DEPTH_NUMANODE, NULL, 0); }
+            else if (fq == 2) { query(t2, &m2, 2, (int)HWLOC_OBJ_PU, NULL, 0); query(t2, &m2, 2, (int)HWLOC_OBJ_NUMANODE, NULL, 0); query(t2, &m2, 2, (int)HWLOC_OBJ_CORE, NULL, 0); }
+            else if (fq == 3) { query(t2, &m2, 3, 0, "a", 0); query(t2, &m2, 3, 0, "b", 0); }
+            else { for (int i = 0; i < m2.n && i < 2; i++) if (m2.d[i].n <= 4) transforms(t2, &m2.d[i]); }
+            mc_try_end();
+          }
+          mc_report_faults(fq == 1 ? "first-by_depth" : fq == 2 ? "first-by_type" : fq == 3 ? "first-by_name" : "first-transform");
+          if (MC_TRY(30000)) { hwloc_topology_destroy(t2); mc_try_end(); }
+          mc_report_faults("destroy");
+          mc_count("first_query_passes", 1);
+        }
         model_key(tn, &mn, &kb);
         if (strset_add(&seen, kb.s, kb.len)) { MC.states++; if (hn.n < maxdepth && nF < 400000) F[nF++] = hn; if (MC.states % 2000 == 1) mc_sample("%s", dhist_text(&hn)); }
         if (MC_TRY(30000)) { hwloc_topology_destroy(tn); mc_try_end(); }
